@@ -65,7 +65,18 @@ type vxWorld struct {
 
 var vxW *vxWorld
 
+// one scheduling point anywhere in the operation under test: before the vxHookAt-th storage / collaborator call another
+// request runs to completion
+var (
+	vxHookAt int
+	vxHook   func()
+)
+
 func vxStep() error {
+	if f := vxHook; f != nil && vxW.calls == vxHookAt {
+		vxHook = nil
+		f()
+	}
 	vxW.calls++
 	if vxW.failAt >= 0 && vxW.calls-1 == vxW.failAt {
 		return vxErr("injected failure")
@@ -450,6 +461,43 @@ func VxChildCreateRacesTreeRevoke() {
 	c := vxFindTok("s-C")
 	survives := c >= 0 && vxW.tokens[c].NumUses >= 0
 	vxAssert("a child created while its parent's tree revocation completes does not survive it (or its creation fails)", !survives || cerr != nil)
+}
+
+// the other nesting: a child creation that STARTS while the tree revocation of its parent is under way - at ANY
+// storage / collaborator call of the revocation after the revocation-pending marker has been written onto the parent
+// (the marker is what keeps new children out from then on: the tree walk has listed the children already and will not
+// look again). The real storeCommon of the child runs to completion at that point; the revocation then finishes.
+func VxChildCreateStartsInsideTreeRevoke() {
+	ctx := namespace.RootContext(context.Background())
+	ts := vxTokenStore()
+	vxW = &vxWorld{failAt: -1}
+	vxAddToken("P", "")
+	vxAddToken("K", "P") // an existing child: the tree walk has something to do before it reaches P
+	child := &logical.TokenEntry{ID: "C", Parent: "P", Accessor: "acc-C", NamespaceID: "root", Policies: []string{"p"}}
+	vxHookAt = vxChoose("the child's creation starts before this call of the revocation", 40)
+	started, marked := false, false
+	var cerr error
+	vxHook = func() {
+		started = true
+		i := vxFindTok("s-P")
+		marked = i >= 0 && vxW.tokens[i].NumUses == tokenRevocationPending
+		if !marked {
+			return // before the marker / after the parent is gone: the other entries cover those positions
+		}
+		cerr = ts.storeCommon(ctx, child, true)
+	}
+	rerr := ts.revokeTreeInternal(ctx, "s-P")
+	vxHook = nil
+	vxAssert("the tree revocation reports success", rerr == nil)
+	vxAssert("the parent is gone", vxFindTok("s-P") < 0)
+	if !started || !marked {
+		return
+	}
+	vxReach("create: started inside the parent's tree revocation, after the marker")
+	c := vxFindTok("s-C")
+	survives := c >= 0 && vxW.tokens[c].NumUses >= 0
+	vxAssert("a child whose creation starts after its parent was marked revocation-pending is refused (it would survive the tree revocation)", cerr != nil && !survives)
+	vxAssert("and leaves no parent index entry behind", !vxHas(vxW.parentIdx, "s-P/s-C"))
 }
 
 // ---- the real destroyCubbyhole: success means the token's cubbyhole storage (keyed exactly as the cubbyhole backend
